@@ -23,6 +23,7 @@ outcome. (`transparent`, `transparent_bytes`, `final_shape_no101` keep the older
 import CaddyModel.C15.Lemmas
 import CaddyModel.C15.Witness
 import CaddyModel.Gen.Encode
+import CaddyModel.Gen.ProxyFlush
 
 namespace CaddyModel.C15
 
@@ -654,6 +655,55 @@ theorem pooled_sequence_independent : ∀ (rs : List (Nat × List (EncCall α)))
 theorem reset_is_needed :
     (serveWithoutReset (some (⟨some 7, [99]⟩ : EncObj Nat)) [.write 1]).1 = [.data (some 7) [99, 1], .trailer (some 7)] := by
   decide
+
+/-! ### the caller contract: calls into the response writer are serialised (reverse_proxy's two goroutines)
+
+    Every theorem above is about a SEQUENTIAL script of calls — `run` gives no meaning to two calls that overlap,
+    and the real encoders are not safe for concurrent use. A caller with more than one goroutine has to
+    serialise; reverse_proxy does it with `maxLatencyWriter.mu` (Proxy.lean). -/
+
+/-- **under the lock discipline every interleaving is serial**: whatever the scheduler does with the copy loop
+    (its `Write`s) and the timer goroutine (its `Flush`es), no two calls into the response writer overlap. -/
+theorem lock_discipline_serialises (ws fs : List (Op α)) (sched : List Bool) :
+    noOverlap ((Sys.start true true ws fs).exec sched).trace = true :=
+  noOverlap_of_lockInv (lockInv_exec sched _ (lockInv_start ws fs))
+
+/-- a trace without overlap (and without a call still in progress) IS a sequential script: every call ends
+    before the next begins, and `callsOf` lists the calls in the order they were made -/
+theorem serialised_trace_is_a_script (tr : List (CallEv α)) (h : okRev tr none = true) :
+    ∃ script : List (Bool × Op α), tr = scriptTrace script ∧ callsOf tr = (script.reverse).map (·.2) :=
+  script_of_okRev tr h
+
+/-- **so transparency applies to what reverse_proxy does**: after the handler's own header calls `pre`, whatever
+    the interleaving of the two goroutines, the calls that reached the writer form a script for which the client
+    obtains exactly the bytes written (or nothing where HTTP forbids a body) -/
+theorem proxy_under_lock_is_transparent (cfg : Cfg α) (name : Bytes) (ic head : Bool) (pre ws fs : List (Op α))
+    (sched : List Bool) :
+    noOverlap ((Sys.start true true ws fs).exec sched).trace = true ∧
+    delivered head (some name)
+        (runWrapped cfg name ic (pre ++ callsOf ((Sys.start true true ws fs).exec sched).trace)) =
+      some (if head || noBodyStatus
+          (runWrapped cfg name ic (pre ++ callsOf ((Sys.start true true ws fs).exec sched).trace))
+        then [] else written cfg (pre ++ callsOf ((Sys.start true true ws fs).exec sched).trace)) :=
+  ⟨lock_discipline_serialises ws fs sched, transparent_total cfg name ic head _⟩
+
+/-- **without the lock around the flush, calls overlap**: if the timer releases the lock before it calls `Flush`
+    (`guarded = false`), there is a schedule in which a `Write` of the copy loop begins while the `Flush` is still
+    running — outside the domain of every theorem above (and, in the real code, two goroutines inside one
+    gzip / zstd encoder). -/
+theorem without_lock_calls_overlap :
+    ∃ sched : List Bool,
+      noOverlap ((Sys.start true false ([.write 1, .write 2] : List (Op Nat)) [.flush]).exec sched).trace = false :=
+  ⟨[false, false, false, false, true, true, true, false, false], by decide⟩
+
+/-- the same schedule under the discipline: the `Write` waits for the `Flush` (the lock is busy) -/
+example : noOverlap ((Sys.start true true ([.write 1, .write 2] : List (Op Nat)) [.flush]).exec
+    [false, false, false, false, true, true, true, false, false]).trace = true := by decide
+
+/-- the source keeps every call into the destination writer inside the critical section — in `Write` (copy
+    loop) and in `delayedFlush` (timer): the discipline `Sys.start true true` models -/
+theorem proxy_flush_under_lock_matches_source :
+    CaddyModel.Gen.proxyMlwWriteUnderLock = true ∧ CaddyModel.Gen.proxyDelayedFlushUnderLock = true := by decide
 
 /-! ### ties to the source: facts REGENERATED from /repo on every run (tools/extract → Gen/Encode.lean).
     A change of one of these literals / call sequences in the Go source changes `Gen.*` and the theorem below
